@@ -154,7 +154,7 @@ impl Scenario for ProgramLockstep {
                                     break 'ops;
                                 }
                                 let who = if rj.is_err() { "jit" } else { "non-jit" };
-                                out.push(Violation::new("C04", if self_switch { "C04/block-in-switchable-bank-writes-bank-register".to_string() } else { format!("C04/only-one-build-panicked/{}/{}", who, msg_of(a)) }, format!("op {} step {} (pc {:#06x}): only the {} build panicked: {}", opi, steps, pre.ip, who, a)));
+                                out.push(Violation::new("C04", format!("C04/only-one-build-panicked/{}/{}", who, msg_of(a)), format!("op {} step {} (pc {:#06x}): only the {} build panicked: {}", opi, steps, pre.ip, who, a)));
                                 break 'ops;
                             }
                             _ => {}
@@ -162,11 +162,11 @@ impl Scenario for ProgramLockstep {
                         let sj = reps[0].snap(true);
                         let sn = reps[1].snap(true);
                         if let Some(field) = sj.diff_field(&sn, &[]) {
-                            out.push(Violation::new("C04", if self_switch { "C04/block-in-switchable-bank-writes-bank-register".to_string() } else { format!("C04/diverged/{}", field) }, format!("op {} step {} (block at pc {:#06x}, run state {}): jit vs non-jit build: {}", opi, steps, pre.ip, pre_state, sj.diff(&sn, &[]).unwrap())));
+                            out.push(Violation::new("C04", format!("C04/diverged/{}", field), format!("op {} step {} (block at pc {:#06x}, run state {}): jit vs non-jit build: {}", opi, steps, pre.ip, pre_state, sj.diff(&sn, &[]).unwrap())));
                             break 'ops;
                         }
                         if oj != on {
-                            out.push(Violation::new("C04", if self_switch { "C04/block-in-switchable-bank-writes-bank-register".to_string() } else { "C04/diverged/serial-output".to_string() }, format!("op {} step {} (pc {:#06x}): bytes written to fd 1: jit {:02x?} vs non-jit {:02x?}", opi, steps, pre.ip, &oj[..oj.len().min(32)], &on[..on.len().min(32)])));
+                            out.push(Violation::new("C04", "C04/diverged/serial-output".to_string(), format!("op {} step {} (pc {:#06x}): bytes written to fd 1: jit {:02x?} vs non-jit {:02x?}", opi, steps, pre.ip, &oj[..oj.len().min(32)], &on[..on.len().min(32)])));
                             break 'ops;
                         }
                         if !on.is_empty() {
